@@ -25,7 +25,18 @@ func init() {
 
 // swapWinEdge: the edge on which an atomic.Bool test-and-set was won:
 // X.Swap(true) false, X.CompareAndSwap(false,true) true, or a variable defined from one of them.
-func swapWinEdge(f *FuncInfo) func(*GEdge) bool {
+func swapWinEdge(f *FuncInfo) func(*GEdge) bool { return swapEdge(f, 1) }
+
+// swapLoseEdge: the edge on which the test-and-set found the flag already set.
+func swapLoseEdge(f *FuncInfo) func(*GEdge) bool { return swapEdge(f, -1) }
+
+func swapEdge(f *FuncInfo, want int) func(*GEdge) bool {
+	atom := swapAtom(f, want)
+	return func(e *GEdge) bool { return edgeImplies(e, atom) }
+}
+
+// swapAtom: the atomic fact "the test-and-set was won" (want=+1) / "found the flag already set" (want=-1).
+func swapAtom(f *FuncInfo, want int) func(ast.Expr, int) bool {
 	info := f.Info()
 	isSwap := func(e ast.Expr) (win int) { // +1: true means won; -1: false means won
 		call, ok := unparen(e).(*ast.CallExpr)
@@ -65,18 +76,16 @@ func swapWinEdge(f *FuncInfo) func(*GEdge) bool {
 		}
 		return true
 	})
-	return func(e *GEdge) bool {
-		return edgeImplies(e, func(cnd ast.Expr, pol int) bool {
-			if w := isSwap(cnd); w != 0 {
-				return w == pol
+	return func(cnd ast.Expr, pol int) bool {
+		if w := isSwap(cnd); w != 0 {
+			return w == pol*want
+		}
+		if o := objOf(info, cnd); o != nil {
+			if w, ok := vars[o]; ok {
+				return w == pol*want
 			}
-			if o := objOf(info, cnd); o != nil {
-				if w, ok := vars[o]; ok {
-					return w == pol
-				}
-			}
-			return false
-		})
+		}
+		return false
 	}
 }
 
@@ -588,6 +597,217 @@ func c15(c *Ctx) {
 			c.Check(okL && okT, "R4", key, tix.at(s), "locked edit, flag re-tested inside the critical section",
 				"processor list edited outside p.mu or without re-testing isShutdown under the lock (a processor registered during Shutdown is never shut down) "+why)
 		}
+	}
+
+	// R6 copy-on-write of the published processor list
+	c.Rule("R6", "E5 immutability (alias tracking)", "the span-processor list published through the atomic pointer is never written in place: element stores, copy destinations, append first arguments and in-place slices operations are rooted at fresh allocations (readers iterate the list without a lock)", 3)
+	{
+		fSP := lookupField(tix.Pkg, "TracerProvider", "spanProcessors")
+		getter := tix.Func("(*TracerProvider).getSpanProcessors")
+		n := 0
+		for _, fn := range sortedFuncs(tix.Funcs) {
+			isRoot := func(e ast.Expr) bool {
+				e = unparen(e)
+				if st, ok := e.(*ast.StarExpr); ok {
+					e = unparen(st.X)
+				}
+				call, ok := e.(*ast.CallExpr)
+				if !ok {
+					return false
+				}
+				if getter != nil && callToDecl(tinfo, getter)(call) {
+					return true
+				}
+				return fSP != nil && fieldMethodCall(tinfo, call, fSP, "Load") != nil
+			}
+			uses := false
+			for _, fi := range tix.All {
+				if tix.Outer(fi) != fn {
+					continue
+				}
+				inspectNoLit(fi.Body(), func(nd ast.Node) bool {
+					if e, ok := nd.(ast.Expr); ok && isRoot(e) {
+						uses = true
+					}
+					return true
+				})
+			}
+			if !uses || fn == getter {
+				continue
+			}
+			n++
+			c.Analysed(fn)
+			bad := sharedSliceWrites(tix, fn, isRoot)
+			c.Check(len(bad) == 0, "R6", "sdk/trace|"+fn.Name+"|no write through the published processor list", at(tix.M, fn.Pos()), "edits go to a fresh copy that is then published",
+				"the processor list other goroutines are iterating (span End/Start, ForceFlush) is modified in place — a concurrent End skips one processor and delivers twice to another: "+joinStr(bad))
+		}
+		if n == 0 {
+			c.Missing("R6", "users of TracerProvider.getSpanProcessors")
+		}
+	}
+
+	// R7 shutdown effects are unconditional
+	c.Rule("R7", "E3 must-pass (negative form)", "Shutdown of a provider sets its stopped flag on every path that was not already stopped; a held exporter's Shutdown is reached on every path of the component's own first Shutdown (excused only by a nil component or an already-set flag)", 7)
+	for _, sp := range []struct {
+		ix             *PkgIndex
+		fname, typ, fl string
+	}{
+		{tix, "(*TracerProvider).Shutdown", "TracerProvider", "isShutdown"},
+		{mix, "(*MeterProvider).Shutdown", "MeterProvider", "stopped"},
+		{lix, "(*LoggerProvider).Shutdown", "LoggerProvider", "stopped"},
+	} {
+		fn := c.Fn(sp.ix, "R7", sp.fname)
+		f := lookupField(sp.ix.Pkg, sp.typ, sp.fl)
+		if fn == nil || f == nil {
+			continue
+		}
+		info := sp.ix.Pkg.TypesInfo
+		g := sp.ix.FG(fn)
+		isSet := func(n ast.Node) bool {
+			call, ok := n.(*ast.CallExpr)
+			if !ok {
+				return false
+			}
+			for _, m := range []string{"Store", "Swap", "CompareAndSwap"} {
+				if fieldMethodCall(info, call, f, m) != nil {
+					last := call.Args[len(call.Args)-1]
+					if tv := info.Types[last]; tv.Value != nil && tv.Value.Kind() == constant.Bool && constant.BoolVal(tv.Value) {
+						return true
+					}
+				}
+			}
+			return false
+		}
+		sets := toSet(g.Match(isSet))
+		lost := swapAtom(fn, -1)
+		already := func(e *GEdge) bool {
+			return g.edgeImpliesDeep(e, func(cnd ast.Expr, pol int) bool {
+				return pol > 0 && fieldMethodCall(info, cnd, f, "Load") != nil || lost(cnd, pol)
+			})
+		}
+		seen, _ := g.ReachFromEntry(func(x *GNode) bool { return sets[x] }, already)
+		c.Check(len(sets) > 0 && !seen[g.Exit], "R7", shortPkg(sp.ix.Pkg.PkgPath)+"|"+sp.fname+"|stopped flag set on every path to return", at(sp.ix.M, fn.Pos()),
+			itoa(len(sets))+" flag-setting site(s) cut every entry→exit path", "Shutdown can return (e.g. with an error) without marking the provider stopped: it keeps handing out live instruments and a later Shutdown is a no-op")
+	}
+	for _, sp := range []struct {
+		ix     *PkgIndex
+		fname  string
+		ifaces []string
+	}{
+		{tix, "(*batchSpanProcessor).Shutdown", []string{"SpanExporter"}},
+		{tix, "(*simpleSpanProcessor).Shutdown", []string{"SpanExporter"}},
+		{lix, "(*BatchProcessor).Shutdown", []string{"Exporter", "bufferExporter"}},
+		{mix, "(*PeriodicReader).Shutdown", []string{"Exporter"}},
+	} {
+		ix := sp.ix
+		info := ix.Pkg.TypesInfo
+		fn := c.Fn(ix, "R7", sp.fname)
+		if fn == nil {
+			continue
+		}
+		// the exporter Shutdown call sites inside this method (at any literal depth)
+		type site struct {
+			f    *FuncInfo
+			call *ast.CallExpr
+		}
+		var sites []site
+		for _, fi := range ix.All {
+			if ix.Outer(fi) != fn {
+				continue
+			}
+			inspectNoLit(fi.Body(), func(n ast.Node) bool {
+				call, ok := n.(*ast.CallExpr)
+				if !ok {
+					return true
+				}
+				cf := callee(info, call)
+				if cf == nil || cf.Name() != "Shutdown" {
+					return true
+				}
+				rv := cf.Type().(*types.Signature).Recv()
+				for _, in := range sp.ifaces {
+					if rv != nil && typeIs(rv.Type(), ix.Pkg.PkgPath, in) {
+						sites = append(sites, site{fi, call})
+					}
+				}
+				return true
+			})
+		}
+		key := shortPkg(ix.Pkg.PkgPath) + "|" + sp.fname + "|exporter.Shutdown on every path of the first Shutdown"
+		if len(sites) == 0 {
+			c.Violation("R7", key, at(ix.M, fn.Pos()), "the held exporter is never shut down by "+sp.fname)
+			continue
+		}
+		// every function level from the sites' own up to the method: each entry→exit path passes a site (or the node carrying
+		// the literal that contains one), unless it crosses an excusing edge
+		good, why := true, ""
+		carriers := map[*FuncInfo][]ast.Node{}
+		for _, s := range sites {
+			carriers[s.f] = append(carriers[s.f], s.call)
+		}
+		for level := 0; level < 6 && len(carriers) > 0; level++ {
+			next := map[*FuncInfo][]ast.Node{}
+			for fi, nodes := range carriers {
+				g := ix.FG(fi)
+				through := map[*GNode]bool{}
+				var recvs []ast.Expr
+				for _, n := range nodes {
+					if x := g.NodeOf(n); x != nil {
+						through[x] = true
+					}
+					if call, ok := n.(*ast.CallExpr); ok {
+						if r, m := methodCall(info, call); m != nil && m.Name() == "Shutdown" {
+							recvs = append(recvs, r)
+						}
+					}
+				}
+				lost := swapAtom(fi, -1)
+				excuse := func(e *GEdge) bool {
+					return g.edgeImpliesDeep(e, func(cnd ast.Expr, pol int) bool {
+						if lost(cnd, pol) {
+							return true
+						}
+						nn, ok := nilCmp(info, cnd, pol, func(x ast.Expr) bool {
+							if fi.Recv() != nil && sameVar(info, x, fi.Recv()) {
+								return true
+							}
+							// a nil member of the receiver: the component was never constructed (zero value), nothing is held
+							if _, base := fieldOf(info, x); base != nil && ix.Outer(fi).Recv() != nil && sameVar(info, base, ix.Outer(fi).Recv()) {
+								return true
+							}
+							for _, r := range recvs {
+								if exprStr(r) == exprStr(x) {
+									return true
+								}
+							}
+							return false
+						})
+						if ok && !nn {
+							return true
+						}
+						// already stopped: an atomic.Bool field of the receiver read as true
+						if call, isCall := cnd.(*ast.CallExpr); isCall && pol > 0 {
+							if cf := callee(info, call); cf != nil && cf.FullName() == "(*sync/atomic.Bool).Load" {
+								return true
+							}
+						}
+						return false
+					})
+				}
+				seen, parent := g.ReachFromEntry(func(x *GNode) bool { return through[x] }, excuse)
+				if seen[g.Exit] {
+					good = false
+					why = "in " + fi.Name + " a path returns without it: " + g.pathLines(parent, g.Exit)
+				}
+				if fi.Lit != nil {
+					if par := ix.Parent[fi.Lit]; par != nil {
+						next[par] = append(next[par], fi.Lit)
+					}
+				}
+			}
+			carriers = next
+		}
+		c.Check(good, "R7", key, at(ix.M, fn.Pos()), itoa(len(sites))+" call site(s); every path of the first Shutdown passes one", "the exporter is not shut down on some path of the component's only effective Shutdown (later calls are no-ops): "+why)
 	}
 
 	// R5 nil-exporter guards
